@@ -845,6 +845,10 @@ class TeX(object):
                     s = self.source(toks)
                     source = '%s%s%s' % (source[0].source, s,
                                           source[-1].source)
+                elif len(source) == 1 and len(toks) > 1:
+                    # A single token that expands to several tokens
+                    # is still one argument
+                    source = '{%s}' % self.source(toks)
                 else:
                     source = self.source(toks)
             else:
